@@ -318,7 +318,7 @@ Theorem destroyed_quiescent : forall s, reachable s ->
   alive s = false -> pending s = [] -> timers s = [] -> (forall c o, nth_error (conns s) c = Some o -> cuser o = 0%nat) ->
   k_dead s = true /\ k_chan s = None /\ connection s = None /\
   (forall c o, nth_error (conns s) c = Some o -> calive o = false /\ nth_error (socks s) (csock o) = Some (HandedClosed 1)) /\
-  (forall i x, nth_error (socks s) i = Some x -> x <> Open).
+  (forall i x, nth_error (socks s) i = Some x -> x = Closed 1 \/ x = HandedClosed 1).
 Proof.
   intros s Hr A P T U. pose proof Hr as (l & ev & Ad & R). destruct (reachable_Inv _ Hr) as (K & Kd & St & C & Cr & X).
   assert (Dd : k_dead s = true) by (apply St; auto).
@@ -329,7 +329,9 @@ Proof.
     rewrite (Cde A), Ho, (U _ _ Ho), P in Z. cbn in Z. lia. }
   split; [exact Dd|split; [exact Hc|split; [exact (Cde A)|split]]].
   - intros c o H. split; [apply (Dead _ _ H)|]. destruct (conn_sockets _ _ _ R _ _ H) as [Hs _]. rewrite (Dead _ _ H) in Hs. exact Hs.
-  - intros i x H ->. destruct (hygiene_all_histories _ _ _ R _ _ H) as [[_ E]|[E|[E|E]]]; congruence.
+  - intros i x H. destruct (hygiene_all_histories _ _ _ R _ _ H) as [[_ E]|[E|[E|E]]]; auto; [congruence|].
+    subst x. destruct (handed_has_owner _ _ _ R i (or_introl H)) as (c & o & Ho & Hi).
+    destruct (conn_sockets _ _ _ R _ _ Ho) as [Hs _]. rewrite (Dead _ _ Ho), Hi in Hs. congruence.
 Qed.
 
 (* ------------------------------------------------------------------ what `finish` adds to a step: only ~TcpConnection closing its descriptor *)
